@@ -55,6 +55,7 @@ fn run_case(args: &[u64]) -> Out {
         Some(7) => sched::run_reserve(&args[1..], &mut out),
         Some(70) => sched::stress_reserve(&args[1..], &mut out),
         Some(17) => sched::stress_world_ids(&args[1..], &mut out),
+        Some(71) => sched::reserve_exhaust(&args[1..], &mut out),
         _ => {}
     }
     out
